@@ -192,6 +192,8 @@ impl DecodeFrom for String {
     fn decode_from(decoder: &mut Decoder<impl InputSource>) -> Result<Self> {
         // Decode how many bytes are in this string, and attempt to allocate a vec with the necessary capacity.
         let length = decoder.decode_varuint()?;
+        // The length comes from untrusted input: make sure that many bytes are really available before allocating.
+        decoder.peek_byte_slice_exact(length)?;
         let mut vector = Vec::new();
         vector.try_reserve_exact(length)?;
 
@@ -217,9 +219,10 @@ where
     /// TODO
     fn decode_from(decoder: &mut Decoder<impl InputSource>) -> Result<Self> {
         // Decode how many elements are in this sequence, and attempt to allocate a vec with the necessary capacity.
-        let length = decoder.decode_varuint()?;
+        // The length comes from untrusted input, so we never reserve more elements than there are bytes left to decode.
+        let length: usize = decoder.decode_varuint()?;
         let mut vector = Vec::new();
-        vector.try_reserve_exact(length)?;
+        vector.try_reserve_exact(length.min(decoder.remaining()))?;
 
         // Decode each element, and push them into the vector, one by one.
         for _ in 0..length {
@@ -243,9 +246,10 @@ where
     /// TODO
     fn decode_from(decoder: &mut Decoder<impl InputSource>) -> Result<Self> {
         // Decode how many entries are in this dictionary, and attempt to allocate a map with the necessary capacity.
-        let length = decoder.decode_varuint()?;
+        // The length comes from untrusted input, so we never reserve more entries than there are bytes left to decode.
+        let length: usize = decoder.decode_varuint()?;
         let mut map = HashMap::new();
-        map.try_reserve(length)?;
+        map.try_reserve(length.min(decoder.remaining()))?;
 
         // Decode 'length'-many entries into the map.
         decode_dictionary_entries!(map, decoder, length);
